@@ -159,6 +159,57 @@ theorem filter_services_total {α : Type} (chk : Bytes → Bool) (self : Loc) (s
     | some scopes =>
       simp only [serviceMatches, hany, List.filter_cons, hs]
 
+/-! ### histories of location updates on one state -/
+
+/-- **An update overwrites everything.** Whatever the state held before (other elements, other values), after a
+    successful `update_from_sdc_location(l)` the published scope is the one of `l`: nothing of an earlier location survives. -/
+theorem published_after_update (st : LocState) (l : Loc) (s : Bytes) (hp : published l = .ok s) :
+    (updateFromLocation st l).2 = none ∧ publishedOfState (updateFromLocation st l).1 = .ok s := by
+  unfold published at hp
+  unfold updateFromLocation
+  cases he : locExtension l with
+  | error e => simp [he] at hp
+  | ok ext =>
+    simp only [he, Except.ok.injEq] at hp
+    subst hp
+    exact ⟨rfl, rfl⟩
+
+/-- the last location of a history that can be published (at least one non-empty element) -/
+def lastGood : List Loc → Option Loc
+  | [] => none
+  | l :: ls => (lastGood ls).or (match locExtension l with | .ok _ => some l | .error _ => none)
+
+/-- **The published scope follows the associated location.** After every history of location changes made through MDIB
+    transactions (`set_location`, updates of the existing state; rejected ones roll back) the published scope is exactly
+    the scope of the last accepted location — independent of all earlier ones. -/
+theorem published_after_history (st : LocState) (ls : List Loc) :
+    publishedOfState (runTx st ls) =
+      match lastGood ls with
+      | some l => published l
+      | none => publishedOfState st := by
+  induction ls generalizing st with
+  | nil => rfl
+  | cons l ls ih =>
+    simp only [runTx, List.foldl_cons] at ih ⊢
+    rw [ih]
+    simp only [lastGood]
+    cases lastGood ls with
+    | some l' => rfl
+    | none =>
+      simp only [Option.none_or]
+      unfold txUpdate updateFromLocation published
+      cases he : locExtension l with
+      | error e => simp
+      | ok ext => simp [he, publishedOfState, Loc.elems]
+
+/-- … hence after any history whose last accepted location is `l` the provider is recognised inside exactly the
+    locations enclosing `l` (stale elements of earlier locations play no role). -/
+theorem inside_after_history (chk : Bytes → Bool) (st : LocState) (ls : List Loc) (l enc : Loc) (hl : lastGood ls = some l)
+    (hv : l.valid = true) (s : Bytes) (hs : publishedOfState (runTx st ls) = .ok s) :
+    scopeStringMatches chk enc s = .ok true ↔ Encloses enc { l with root := defaultRoot } := by
+  rw [published_after_history, hl] at hs
+  exact published_inside chk l enc hv s hs
+
 /-! ### the public entry point `WSDiscovery.search_sdc_device_services_in_location` -/
 
 open Sdc.Discovery Sdc.LocationSearch in
@@ -238,6 +289,11 @@ example : fromScopeString (fun _ => false) (scopeString exLoc) = .ok exLoc := by
 example : ∃ s, published exLoc = .ok s ∧ scopeStringMatches (fun _ => true) { exLoc with root := defaultRoot, poc := none } s = .ok true := by
   refine ⟨_, rfl, ?_⟩; decide
 example : ¬ AllEmpty exLoc := by unfold AllEmpty; decide
+/-- A (room and bed) -> B (less specific) -> rejected empty location: the published scope is the one of B, no `rm`/`bed` -/
+example : publishedOfState (runTx LocState.fresh
+    [⟨defaultRoot, some [72], none, none, some [67], some [82, 55], some [66]⟩, ⟨defaultRoot, some [72], none, none, some [67], none, none⟩,
+     ⟨defaultRoot, none, none, none, none, none, none⟩])
+    = published ⟨defaultRoot, some [72], none, none, some [67], none, none⟩ := by decide
 /-- a foreign scope with a two-segment path: no match, no exception -/
 example : scopeStringMatches (fun _ => true) exLoc (scheme ++ [58, 47, 114, 111, 111, 116]) = .ok false := by decide
 
